@@ -1,2 +1,57 @@
-(* C02 -- compare-and-swap never loses an update. (statements to be added) *)
-From WB Require Import Base.Str Model.Key Model.Store Model.Entry Model.Core.
+(* C02 -- Compare-and-swap never loses an update.  Statements only; proofs in Proofs/C02Proof.v. *)
+From WB Require Import Base.Str Base.Json Model.Key Model.Store Model.Entry Model.Core
+  Spec.MapSpec Proofs.CoreFacts Proofs.C01Proof Proofs.C02Proof.
+
+(* a cset succeeds iff the version it carries equals the key's current version (0 for an absent
+   or plain value) and then raises it by exactly one; otherwise CasVersionMismatch and no change.
+   (version u64::MAX excluded: known finding F17) *)
+Theorem C02_cset_rule :
+  forall s c k v n p, writable c k v p -> n <> u64_max ->
+    (o_res (snd (step s (OCSet c k v n false))) = RUnit <-> n = version_at s p) /\
+    (o_res (snd (step s (OCSet c k v n false))) = RUnit ->
+       abs (fst (step s (OCSet c k v n false))) p = Some (Cas v (n + 1))) /\
+    (o_res (snd (step s (OCSet c k v n false))) <> RUnit ->
+       o_res (snd (step s (OCSet c k v n false))) = RErr E_CasVersionMismatch /\
+       fst (step s (OCSet c k v n false)) = s).
+Proof. exact cset_rule. Qed.
+Print Assumptions C02_cset_rule.
+
+Theorem C02_set_never_replaces_cas :
+  forall s c k v p x vx, writable c k v p -> abs s p = Some (Cas x vx) ->
+    step s (OSet c k v false) = (s, out_res (RErr E_Cas)).
+Proof. exact set_never_replaces_cas. Qed.
+Print Assumptions C02_set_never_replaces_cas.
+
+(* every interleaving of the requests of any number of clients is an operation list *)
+Theorem C02_no_lost_update :
+  forall p ops s, Inv s -> Forall quiet_op ops -> no_crash (run s ops) ->
+    Inv (final s ops) /\ version_at (final s ops) p = version_at s p + accepted_csets p s ops.
+Proof. exact no_lost_update. Qed.
+Print Assumptions C02_no_lost_update.
+
+Theorem C02_versions_monotone :
+  forall p ops s, Inv s -> Forall quiet_op ops -> no_crash (run s ops) ->
+    version_at s p <= version_at (final s ops) p.
+Proof. exact versions_monotone. Qed.
+Print Assumptions C02_versions_monotone.
+
+Theorem C02_one_winner :
+  forall s c1 c2 k v1 v2 n p ops,
+    Inv s -> writable c1 k v1 p -> writable c2 k v2 p -> n <> u64_max ->
+    o_res (snd (step s (OCSet c1 k v1 n false))) = RUnit ->
+    Forall quiet_op ops -> no_crash (run (fst (step s (OCSet c1 k v1 n false))) ops) ->
+    o_res (snd (step (final (fst (step s (OCSet c1 k v1 n false))) ops) (OCSet c2 k v2 n false)))
+      = RErr E_CasVersionMismatch.
+Proof. exact one_winner. Qed.
+Print Assumptions C02_one_winner.
+
+(* the boundary the hypotheses exclude (F17): at version u64::MAX the model's outcome is a crash *)
+Theorem C02_overflow_refuted :
+  exists cur v, decide cur (Cas v u64_max) false = DCrash.
+Proof. exists (Some (Cas JNull u64_max)), JNull. reflexivity. Qed.
+Print Assumptions C02_overflow_refuted.
+
+Example C02_nonvacuous :
+  writable 1 [107] (JNum [49]) [[107]] /\ Inv init /\
+  o_res (snd (step init (OCSet 1 [107] (JNum [49]) 0 false))) = RUnit.
+Proof. split; [|split]; [vm_compute; auto|exact Inv_init|reflexivity]. Qed.
